@@ -72,6 +72,12 @@ chk("C16", "fault_enumeration",
     "Trusted: x/crypto/openpgp (makes and verifies the signatures), fixture keys, vinstr's map-range rewrite. Real code (instrumented copy): deb.Load, Deb.CheckDebsig.",
     "DESIGN.md §5 C16")
 
+chk("C11", "fault_enumeration",
+    "deterministic simulation: seeded documents clearsigned with fixture keys, passed through a corrupting channel (byte substitution/deletion/insertion/truncation at every position, spliced foreign paragraphs, appended block, replaced signature, keyring variants) and read through the library's verifying readers over a simulated stream; thorough tier sweeps every fault position per sampled document; tape minimisation and exact replay",
+    "Soundness (a reported signer implies the returned paragraphs are exactly the signed text and the signer is the signing key in the keyring) and 'no text from outside the signed block reaches the caller' are checked on every run whatever the fault; must-fail is demanded only where the signed text or decoded signature provably changed. Fault positions enumerated per sampled document in the thorough tier; documents, keys and keyrings sampled.",
+    "Trusted: x/crypto/openpgp + clearsign (sign and verify), fixture keys, the deb822 model. Real code: control.NewParagraphReader/NewDecoder/decodeClearsig/Signer.",
+    "DESIGN.md §5 C11")
+
 def main():
     props = [json.loads(l) for l in open(os.path.join(HERE, "properties.jsonl"))]
     ids = [p["id"] for p in props]
